@@ -15,7 +15,8 @@ GENERIC_KINDS = ['cut', 'flip', 'flip', 'insert', 'delete', 'dup-range',
 BER_KINDS = ['retag', 'len+1', 'len-1', 'len0', 'len-indef', 'len-huge',
              'drop-node', 'dup-node', 'swap-nodes', 'inject-eoc',
              'len-long-form', 'wrap-constructed', 'retag-indef',
-             'retag-indef']
+             'retag-indef', 'node-drop-fix', 'node-drop-fix', 'node-dup-fix',
+             'node-swap-fix']
 TEXT_KINDS = ['text-delete', 'text-dup', 'text-nest', 'text-swapcase',
               'text-number', 'tree-dup', 'tree-dup', 'tree-drop',
               'tree-swap', 'tree-move']
@@ -283,7 +284,111 @@ def _rebuild(data, node, new_tag=None, new_len_bytes=None, new_content=None):
         + bytes(data[node['end']:])
 
 
+def _ber_tree(data, offset, end):
+    """[(tag bytes, children list | content bytes)] of a definite-length
+    encoding; None if it does not parse cleanly."""
+
+    items = []
+
+    while offset < end:
+        start = offset
+
+        try:
+            first = data[offset]
+            offset += 1
+
+            if first & 0x1f == 0x1f:
+                while data[offset] & 0x80:
+                    offset += 1
+
+                offset += 1
+
+            tag = bytes(data[start:offset])
+            length_byte = data[offset]
+            offset += 1
+
+            if length_byte & 0x80:
+                count = length_byte & 0x7f
+
+                if count == 0:
+                    return None
+
+                length = int.from_bytes(data[offset:offset + count], 'big')
+                offset += count
+            else:
+                length = length_byte
+        except IndexError:
+            return None
+
+        if offset + length > end:
+            return None
+
+        body = None
+
+        if first & 0x20:
+            body = _ber_tree(data, offset, offset + length)
+
+        if body is None:
+            body = bytes(data[offset:offset + length])
+
+        items.append([tag, body])
+        offset += length
+
+    return items
+
+
+def _ber_serialise(items):
+    out = bytearray()
+
+    for tag, body in items:
+        content = _ber_serialise(body) if isinstance(body, list) else body
+        out += tag + encode_length(len(content)) + content
+
+    return bytes(out)
+
+
+def mutate_ber_consistent(data, kind, rng):
+    """An element dropped, duplicated or swapped with its neighbour, and
+    ALL enclosing lengths recomputed: a well-formed encoding of something
+    else (a missing mandatory member, a member twice, members out of
+    order), so that the decoder fails - or not - deep inside."""
+
+    tree = _ber_tree(data, 0, len(data))
+
+    if not tree:
+        return bytes(data)
+
+    lists = []
+
+    def collect(items):
+        if items:
+            lists.append(items)
+
+        for _, body in items:
+            if isinstance(body, list):
+                collect(body)
+
+    collect(tree)
+    # (Not the outermost list: that would drop the message itself.)
+    lists = [items for items in lists if items is not tree] or lists
+    items = rng.choice(lists)
+    index = rng.randrange(len(items))
+
+    if kind == 'node-drop-fix':
+        del items[index]
+    elif kind == 'node-dup-fix':
+        items.insert(index, items[index])
+    elif len(items) > 1:
+        other = (index + 1) % len(items)
+        items[index], items[other] = items[other], items[index]
+
+    return _ber_serialise(tree)
+
+
 def mutate_ber(data, kind, rng):
+    if kind.endswith('-fix'):
+        return mutate_ber_consistent(data, kind, rng)
+
     nodes = tlv_nodes(data)
 
     if not nodes:
